@@ -7,6 +7,7 @@
 //   lbare c|s <seq>               IP / TCP(seq, ACK) without payload layer
 // result: "r=<data callback calls> end=<end callback calls> c=<seq>/<plen>/<fnv>/<frags> s=<seq>/<plen>/<fnv>/<frags>"
 #include "common.h"
+#include "c06_show.h"
 #include <tins/tcp_stream.h>
 #include <tins/ip.h>
 #include <tins/tcp.h>
@@ -26,7 +27,7 @@ static std::string frags(const std::map<uint32_t, RawPDU*>& m) {
     for (auto& kv : m) {
         if (!first) o << ",";
         first = false;
-        o << kv.first << ":" << to_hex(kv.second->payload());
+        o << show_chunk(kv.first, kv.second->payload());
     }
     return o.str();
 }
